@@ -10,6 +10,7 @@ type chunkW struct {
 	idx int64
 	val [8]byte
 	n   int // valid bytes of val (the write's reach inside the chunk, 1..8)
+	op  int // sequence number of the pwrite that produced it
 }
 
 type pfile struct {
@@ -28,6 +29,7 @@ type dirop struct {
 // Replay is the abstract persistence model: durable state + pending (not yet
 // fsynced) directory operations, chunk writes and length changes.
 type Replay struct {
+	opSeq   int
 	dirDur  map[string]int
 	dirPend []dirop
 	files   map[int]*pfile
@@ -50,7 +52,7 @@ func NewReplay(base *State, baseIno map[string]int) *Replay {
 }
 
 func (r *Replay) Clone() *Replay {
-	c := &Replay{dirDur: map[string]int{}, files: map[int]*pfile{}, stable: map[string][]byte{}, meta: r.meta}
+	c := &Replay{dirDur: map[string]int{}, files: map[int]*pfile{}, stable: map[string][]byte{}, meta: r.meta, opSeq: r.opSeq}
 	for k, v := range r.dirDur {
 		c.dirDur[k] = v
 	}
@@ -100,9 +102,11 @@ func (r *Replay) Apply(o Op) {
 			f.vol = nv
 		}
 		copy(f.vol[o.Off:], o.Data)
+		r.opSeq++
 		for c := o.Off / 8; c*8 < end; c++ {
 			var w chunkW
 			w.idx = c
+			w.op = r.opSeq
 			hi := c*8 + 8
 			if hi > int64(len(f.vol)) {
 				hi = int64(len(f.vol))
@@ -397,6 +401,81 @@ func (r *Replay) Enumerate(cap int, fn func(st *State, info ImageInfo) bool) (co
 		}
 		// bounded fallback
 		exhaustive = false
+		// family 1: one pwrite torn at a time (every subset of its chunks) while every
+		// other pending pwrite has landed completely or not at all
+		{
+			opset := map[int]bool{}
+			for i := range vars {
+				for j := range vars[i].options {
+					for _, w := range vars[i].options[j] {
+						opset[w.op] = true
+					}
+				}
+			}
+			var ops []int
+			for o := range opset {
+				ops = append(ops, o)
+			}
+			sort.Ints(ops)
+			if len(ops) >= 2 && len(ops) <= 5 {
+				type cpos struct{ i, j int }
+				for xi, x := range ops {
+					var xs []cpos
+					for i := range vars {
+						for j := range vars[i].options {
+							for _, w := range vars[i].options[j] {
+								if w.op == x {
+									xs = append(xs, cpos{i, j})
+									break
+								}
+							}
+						}
+					}
+					if len(xs) > 14 {
+						continue
+					}
+					nOther := len(ops) - 1
+					for om := 0; om < (1 << uint(nOther)); om++ {
+						landedOp := map[int]bool{}
+						k := 0
+						for yi, y := range ops {
+							if yi == xi {
+								continue
+							}
+							landedOp[y] = om&(1<<uint(k)) != 0
+							k++
+						}
+						for sub := 0; sub < (1 << uint(len(xs))); sub++ {
+							xl := map[cpos]bool{}
+							for b, p := range xs {
+								if sub&(1<<uint(b)) != 0 {
+									xl[p] = true
+								}
+							}
+							for i := range vars {
+								lenSel[i] = len(vars[i].lens) - 1
+								for j := range chunkSel[i] {
+									best, bestOp := 0, -1
+									for oi, w := range vars[i].options[j] {
+										l := landedOp[w.op]
+										if w.op == x {
+											l = xl[cpos{i, j}]
+										}
+										if l && w.op > bestOp {
+											best, bestOp = oi+1, w.op
+										}
+									}
+									chunkSel[i][j] = best
+								}
+							}
+							if !emit(lenSel, chunkSel) {
+								return count, exhaustive
+							}
+						}
+					}
+				}
+			}
+		}
 		type pos struct{ i, j int }
 		var flat []pos
 		for i := range vars {
